@@ -138,6 +138,8 @@ class Layout:
         self.put(indent)
         a1 = len(self.tpl)
         body = python_text if python_text is not None else ("n" if n == 1 else "n" + "M" * (n - 2) + "m")
+        if self.has_wsp:
+            trail = ""          # under a blank delimiter a trailing blank would make the line "key<delim>"
         self.put(body + trail)
         end = len(self.tpl)
         self.nl(final_nl)
@@ -220,7 +222,11 @@ def seps_for(L, rng=None, all_forms=False):
         forms = [(" ", False, ""), ("\t", False, "") if "\t" in L.delim else (" ", False, " "), (" ", False, " "), ("b", False, "")]
         forms = [f for f in forms if all(ch in L.delim or ch == "b" for ch in f[0] + f[2])] or [(" ", False, "")]
         # only blanks that are delimiters or plain isspace blanks may separate: the parser ends the key at any isspace
-        forms = [(" ", False, ""), (" ", False, " "), ("\t", False, ""), ("b", False, "b")]
+        # the blanks between key and value must be members of the delimiter set ('B' = symbolic member)
+        if "\t" in L.delim:
+            forms = [(" ", False, ""), (" ", False, " "), ("\t", False, ""), ("B", False, "B")]
+        else:
+            forms = [(" ", False, ""), (" ", False, " "), ("  ", False, ""), ("B", False, "B")]
     else:
         forms = [("", True, ""), (" ", True, " "), (" ", False, ""), ("", True, " "), ("\t", False, " ")]
     return forms
@@ -267,6 +273,7 @@ def random_layout(rng, delim, comment, nlines, want_err=False, python=False, met
                 klen = L.exps[dup]["key"][1]
             vk = rng.choice(["empty", "plain1", "plain3", "quoted0", "quoted2", "quoted3"])
             tail = "" if python else rng.choice(["", "", " ", "\t", " Hc", "Hcc", " H", "  Hccc"])
+            if L.has_wsp and not L.has_nonwsp and "\t" not in L.delim: tail = tail.replace("\t", " ")
             if python and vk.startswith("quoted"):
                 vk = "plain3"
             L.entry(rng.choice(["", " ", "\t"]) if not python else "", klen, rng.choice(forms), vk, tail, dup_of=dup, final_nl=fin)
